@@ -11,6 +11,7 @@ use vt::Ctx;
 
 pub fn check_c12() -> i32 {
     let mut rep = Report::new("C12", "exploration");
+    set_rich(rep.is_thorough());
     rep.rule = "every type of a universe closed under the provided \
                 constructors (primitives at every width, char, String, (), \
                 Duration, PathBuf, NonZero*, tuples to arity 4, arrays, \
@@ -26,7 +27,7 @@ pub fn check_c12() -> i32 {
                 bytes written; over all values of a type sorted by encoding: \
                 no encoding is a prefix of (or equal to) another value's; \
                 sliding triples encoded back to back are read back in \
-                sequence. Interned handles: see C15. distinct = values"
+                sequence. Interned handles: every structure shape with repeated handles of one and of different types (equal content hash), decoded with the same and with a fresh interner (shared with C15). distinct = values"
         .into();
     rep.rule.push_str(
         "; also Box/Rc/Arc of [T], str and Path, Cow of [T]/str/Path, PhantomData, every NonZero width, every atomic \
@@ -52,6 +53,18 @@ pub fn check_c12() -> i32 {
         }
         Err(e) => rep.machinery_errors.push(e),
     }
+    // interned handles (first occurrence inline, later ones by reference):
+    // every structure shape of the C15 encoding part
+    // (inside a shuttle execution: the interner's locks are scheduler primitives)
+    let (shapes, ibad) = match crate::xplore::run_default(crate::c15::encoding_part) {
+        Ok(r) => r,
+        Err(e) => (0, vec![format!("{:?}: {}", e.kind, e.msg)]),
+    };
+    ctx.values += shapes;
+    for b in ibad.into_iter().take(10) {
+        ctx.bad.push(format!("interned handles: {b}"));
+    }
+    rep.extra.insert("interned_structures".into(), json!(shapes));
     rep.evaluations = ctx.values + ctx.pairs + ctx.triples;
     rep.distinct_nontrivial = ctx.values;
     rep.extra.insert("types".into(), json!(ctx.types));
@@ -160,6 +173,7 @@ fn run_opt(what: &str, salt: usize) -> Result<Opt, String> {
                 names[i]
             )),
             Child::TimedOut => o.bad.push(format!("{}: timed out", names[i])),
+            Child::Machinery(m) => return Err(m),
         }
     }
     Ok(o)
@@ -167,8 +181,13 @@ fn run_opt(what: &str, salt: usize) -> Result<Opt, String> {
 
 fn hash_ctx() -> Ctx { vt::hash_ctx() }
 
+fn set_rich(on: bool) {
+    vt::vshape::RICH.store(on, std::sync::atomic::Ordering::Relaxed);
+}
+
 /// child process: prints the digest of all seeded hashes / all ids
 pub fn child(what: &str) {
+    set_rich(crate::report::tier() == "thorough");
     match what {
         "hashdigest" => {
             let ctx = hash_ctx();
@@ -205,6 +224,7 @@ fn three_processes(what: &str) -> Result<Vec<String>, String> {
             Child::Done(v) => out.push(v["digest"].as_str().unwrap_or("").to_string()),
             Child::Crashed(m) => return Err(format!("helper process crashed: {m}")),
             Child::TimedOut => return Err("helper process timed out".into()),
+            Child::Machinery(m) => return Err(m),
         }
     }
     Ok(out)
@@ -212,6 +232,7 @@ fn three_processes(what: &str) -> Result<Vec<String>, String> {
 
 pub fn check_c13() -> i32 {
     let mut rep = Report::new("C13", "exploration");
+    set_rich(rep.is_thorough());
     rep.rule = "same universe as C12 (types with a StableHash impl). A \
                 recording StableHasher captures the flattened byte stream \
                 (sub-hashes of unordered collections mirrored through the real \
